@@ -90,6 +90,10 @@ type FnCtx struct {
 	notes        map[string]bool
 	ghost        map[string]*Cell
 	lemmaName    string
+	hypMode      bool // contract expressions are being evaluated as assumptions
+	rootFrame    *Frame
+	rootRets     []retPoint
+	defs         map[T]T
 	usedLemmas   []string
 	lemmaStates  map[string]*State
 }
@@ -139,7 +143,72 @@ func (fx *FnCtx) define(hint, sort string, t T) T {
 	}
 	c := fx.decls.Fresh(hint, sort)
 	fx.assumes = append(fx.assumes, eq(c, t))
+	if fx.defs == nil {
+		fx.defs = map[T]T{}
+	}
+	fx.defs[c] = t
 	return c
+}
+
+// splitStore recognises "(store A I V)" and returns its three arguments.
+func splitStore(t T) (a, i, v T, ok bool) {
+	if !strings.HasPrefix(t, "(store ") || !strings.HasSuffix(t, ")") {
+		return
+	}
+	body := t[len("(store ") : len(t)-1]
+	var parts []T
+	depth, start, inBar := 0, 0, false
+	for k := 0; k < len(body); k++ {
+		switch c := body[k]; {
+		case c == '|':
+			inBar = !inBar
+		case inBar:
+		case c == '(':
+			depth++
+		case c == ')':
+			depth--
+		case c == ' ' && depth == 0:
+			parts = append(parts, body[start:k])
+			start = k + 1
+		}
+	}
+	parts = append(parts, body[start:])
+	if len(parts) != 3 {
+		return
+	}
+	return parts[0], parts[1], parts[2], true
+}
+
+// selHeap reads index i of array term a, resolving reads over writes to the
+// syntactically same index (and skipping writes to a different freshly
+// allocated reference) through the definitions introduced so far.
+func (fx *FnCtx) selHeap(a, i T) T {
+	cur := a
+	for n := 0; n < 64; n++ {
+		t := cur
+		if d, ok := fx.defs[cur]; ok {
+			t = d
+		}
+		base, idx, val, ok := splitStore(t)
+		if !ok {
+			break
+		}
+		if idx == i {
+			return val
+		}
+		if distinctRefs(idx, i) {
+			cur = base
+			continue
+		}
+		break
+	}
+	return sel(cur, i)
+}
+
+// distinctRefs: two different constants produced by allocation (|ref_...|)
+// denote different references.
+func distinctRefs(a, b T) bool {
+	return a != b && strings.HasPrefix(a, "|ref_") && strings.HasPrefix(b, "|ref_") && !strings.Contains(a, " ") && !strings.Contains(b, " ")
 }
 
 func (fx *FnCtx) oblige(kind, name string, st *State, cond T, pos token.Pos, clause string) *Obligation {
@@ -163,6 +232,14 @@ func (fx *FnCtx) oblige(kind, name string, st *State, cond T, pos token.Pos, cla
 	// later obligations may assume this one
 	fx.assume(st.guard, cond)
 	return o
+}
+
+// hyp evaluates f with quantified facts rendered for use as assumptions.
+func (fx *FnCtx) hyp(f func() T) T {
+	old := fx.hypMode
+	fx.hypMode = true
+	defer func() { fx.hypMode = old }()
+	return f()
 }
 
 func (fx *FnCtx) rootName() string {
@@ -218,7 +295,7 @@ func (fx *FnCtx) loadObj(st *State, sh *Shape, ref T) Val {
 	n := sh.ncomp()
 	ts := make([]T, n)
 	for c := 0; c < n; c++ {
-		ts[c] = sel(fx.heapTerm(st, heapName(sh, c), heapSort(sh, c)), ref)
+		ts[c] = fx.selHeap(fx.heapTerm(st, heapName(sh, c), heapSort(sh, c)), ref)
 	}
 	v := Val{sh: sh, ts: ts}
 	return v
